@@ -52,11 +52,14 @@ impl Slot {
         SLOT_TABLE.with_borrow_mut(|tab| {
             if s.starts_with("f") {
                 if let Some(x) = parse_canonical_u30(&s[1..]) {
-                    let out = x * 4 + 1;
-                    if tab.fresh_idx <= out {
-                        tab.fresh_idx = out + 4;
+                    // the fresh counter has to be able to move past this slot without overflowing.
+                    if x < (1 << 30) - 1 {
+                        let out = x * 4 + 1;
+                        if tab.fresh_idx <= out {
+                            tab.fresh_idx = out + 4;
+                        }
+                        return Slot(out); // fresh
                     }
-                    return Slot(out); // fresh
                 }
             }
 
